@@ -71,6 +71,8 @@ func c06Judge(text string, mode py.CompileMode) (sig, expected, actual string, e
 var (
 	// numeric literals with underscores (PEP 515, 3.6)
 	c06FenceUnderscoreNum = regexp.MustCompile(`(^|[^A-Za-z_0-9.])[0-9][0-9A-Za-z]*_[0-9A-Za-z_]*|\.[0-9]+_|[0-9]_*\.[0-9_]`)
+	// a backslash line join whose next line is blank or a comment: CPython's tokenizer makes something of its own of it
+	c06FenceJoinToComment = regexp.MustCompile(`\\\r?[\n\r][ \t\f]*(#|\r|\n|$)`)
 	// string prefixes that exist only from 3.6 (f-strings)
 	c06FenceFString = regexp.MustCompile(`(?i)(^|[^A-Za-z_0-9])(f|fr|rf)['"]`)
 	// words that became (soft) keywords after 3.4
@@ -121,6 +123,8 @@ func c06FuzzFence(src string) string {
 		return "fstring"
 	case c06FenceAsync.MatchString(src):
 		return "async"
+	case c06FenceJoinToComment.MatchString(src):
+		return "line-join-to-comment"
 	case strings.Contains(src, "@"), strings.Contains(src, "__future__"), strings.Contains(src, "coding"):
 		// '@' outside decorators is the 3.5 matmul operator (an invalid use is still tokenised differently); __future__ features
 		// and coding declarations change the grammar / the decoding
